@@ -141,7 +141,7 @@ def main(argv: list[str]) -> int:
         sub = subs[f["sub"]]
         case = f["case"]
         k = match_known(known, b, case, requires)
-        if k is None and n_shrunk < 4:
+        if k is None and n_shrunk < 4 and not os.environ.get("VERIF_NO_SHRINK"):
             try:
                 case = shrink_case(sub, prop, case, b, shrink_budget)
             except Exception:  # noqa: BLE001
